@@ -51,6 +51,11 @@ def gen(seed, index):
     G = g.G(rng, tags=True, tempi=True)      # containers carry tags and tempi (opaque ids in the model)
     t = G.tree(kind=rng.choice(["S", "S", "S", "P"]))
     ops = [gen_op(rng, G, t) for _ in range(rng.choice([0, 1, 1, 2, 3, 4, 5]))]
+    if rng.random() < 0.08 and t[0] == "S":
+        # shared child references (one leaf / one nested container object at several positions): read only, no edits
+        from props import C02 as _c2
+        t = _c2.share_container(rng, _c2.share_leaves(rng, t)) if rng.random() < 0.6 else _c2.share_leaves(rng, t)
+        ops = []
     return ["c01", t] + ops
 
 
